@@ -24,8 +24,10 @@ NameTags(hh) ==
   \cup (IF ~CaseSensitive /\ \E a, b \in U : a # b /\ FoldName(a) = FoldName(b) THEN {"CASE_VARIANT"} ELSE {})
   \cup (IF ~CaseSensitive /\ \E a \in U : FoldName(a) # a THEN {"UPPER"} ELSE {})
 Tags(hh) == NameTags(hh) \cup UNION {hh[i].tg : i \in 1..Len(hh)}
-Out(hh)  == [calls |-> [i \in 1..Len(hh) |-> [op |-> hh[i].op, p |-> hh[i].p, x |-> hh[i].x, c |-> hh[i].c]],
-             tags |-> Tags(hh)]
+\* tags[i]: hazard tags of the first i calls (a failure after call i is attributed to the stratum of that prefix);
+\* tg: the tags of the call itself
+Out(hh)  == [calls |-> [i \in 1..Len(hh) |-> [op |-> hh[i].op, p |-> hh[i].p, x |-> hh[i].x, c |-> hh[i].c, tg |-> hh[i].tg]],
+             tags |-> [i \in 1..Len(hh) |-> Tags(SubSeq(hh, 1, i))]]
 
 Call(op, p, x, c, tg) == [op |-> op, p |-> p, x |-> x, c |-> c, tg |-> tg]
 DepthOK(r) == \A o \in Live(r.fs) : Len(r.fs[o].path) <= MaxDepth
